@@ -25,6 +25,10 @@ def U64 (v : Int) : Prop := 0 ≤ v ∧ v < 18446744073709551616
 /-- a script or witness item whose length a parser can read back (`f.read(n)` needs `n < 2^63`) -/
 def LenOk (b : Bytes) : Prop := b.length < 2 ^ 63
 
+instance (v : Int) : Decidable (U32 v) := by unfold U32; infer_instance
+instance (v : Int) : Decidable (U64 v) := by unfold U64; infer_instance
+instance (b : Bytes) : Decidable (LenOk b) := by unfold LenOk; infer_instance
+
 structure TxIn.WF (t : TxIn) : Prop where
   hash : t.prevHash.length = 32
   index : U32 t.prevIndex
